@@ -408,6 +408,10 @@ func mutate(v *progen.Val) []*progen.Val {
 			ex := cur.Clone()
 			ex.O["zz_extra"] = progen.Int(1)
 			out = append(out, replace(p, ex))
+			// ... and an undeclared field of another kind than its siblings
+			ex2 := cur.Clone()
+			ex2.O["zz_note"] = progen.Str("x")
+			out = append(out, replace(p, ex2))
 			for _, k := range cur.Keys() {
 				ms := cur.Clone()
 				delete(ms.O, k)
@@ -592,8 +596,17 @@ func checkFlow(c Case) []ev.Finding {
 	}
 	raw := json.RawMessage(c.Json)
 	v, err := progen.ParseJSON(raw)
-	if err != nil || V(s, v) != accept {
+	if err != nil {
 		return nil
+	}
+	if verdict := V(s, v); verdict != accept {
+		// a value with undeclared struct fields: the reference does not
+		// decide whether it is valid for S; the statement's antecedent is
+		// "validated cleanly against S", so ask the validator itself
+		var al strings.Builder
+		if verdict == reject || ts.IsValidJson(raw, &al, lookup) != nil || al.Len() > 0 {
+			return nil
+		}
 	}
 	f, fatal, ferr := td.FilterJson(raw, lookup)
 	if fatal {
@@ -782,6 +795,14 @@ func main() {
 			}
 			for _, v := range vals {
 				flows = append(flows, Case{Kind: "flow", Type: s.String(), Other: d.String(), Json: v.JSON()})
+				// the same value with an undeclared field (structs only)
+				if _, isStruct := structs[s.Tname]; isStruct && s.ArrayDim == 0 && s.MapDim == 0 && v.K == progen.VObj {
+					for _, extra := range []*progen.Val{progen.Str("note"), progen.Int(5), progen.Arr(progen.Int(1))} {
+						w := v.Clone()
+						w.O["zz_undeclared"] = extra
+						flows = append(flows, Case{Kind: "flow", Type: s.String(), Other: d.String(), Json: w.JSON()})
+					}
+				}
 			}
 		}
 	}
